@@ -36,10 +36,17 @@ abbrev Interp := String → List Rat → Option Rat
 /-- mathematical functions both languages can name -/
 inductive Sem where
   | abs | ceil | floor | max | min | rem | pow
+  | ieeeRem                         -- `math.remainder`: x − n·y with n the integer nearest to x/y, ties to even
   | opaque (name : String)
 deriving Repr, DecidableEq, Inhabited
 
 def floorDiv (a b : Rat) : Rat := ((a / b).floor : Int)
+
+/-- round half to even -/
+def roundHalfEven (q : Rat) : Int :=
+  let f := q.floor
+  let diff := q - (f : Rat)
+  if diff < 1 / 2 then f else if 1 / 2 < diff then f + 1 else (if f % 2 = 0 then f else f + 1)
 
 def powRat (I : Interp) (a b : Rat) : Option Rat :=
   if b.den = 1 then
@@ -54,6 +61,7 @@ def Sem.eval (I : Interp) : Sem → List Rat → Option Rat
   | .max, a :: as => some (as.foldl (fun x y => if x < y then y else x) a)
   | .min, a :: as => some (as.foldl (fun x y => if y < x then y else x) a)
   | .rem, [a, b] => if b = 0 then none else some (a - b * floorDiv a b)
+  | .ieeeRem, [a, b] => if b = 0 then none else some (a - b * (roundHalfEven (a / b) : Int))
   | .pow, [a, b] => powRat I a b
   | .opaque n, xs => I n xs
   | _, _ => none
@@ -77,6 +85,10 @@ def pySem (f : String) : Option Sem :=
   else if f ∈ ["sqrt", "exp", "sin", "cos", "tan", "arcsin", "arccos", "arctan", "sinh", "cosh", "tanh",
                "arcsinh", "arccosh", "arctanh"] then some (.opaque f)
   else none
+
+/-- `module.name`: numpy's names; `math` shares them except `remainder`, which is the IEEE remainder there -/
+def pySemLib (p a : String) : Option Sem :=
+  if p = "math" ∧ a = "remainder" then some .ieeeRem else pySem a
 
 def pyUnary : UOp → Val → Option Val
   | .usub, v => some (.num (- v.toNum))
@@ -105,7 +117,7 @@ def pyCmp : COp → Rat → Rat → Option Bool
 
 def pyCall (I : Interp) : Callee → List Rat → Option Rat
   | .direct f, xs => (pySem f).bind (·.eval I xs)
-  | .lib p a, xs => if p ∈ pyLibs then (pySem a).bind (·.eval I xs) else none
+  | .lib p a, xs => if p ∈ pyLibs then (pySemLib p a).bind (·.eval I xs) else none
   | _, _ => none
 
 def pyAttr (I : Interp) (p a : String) : Option Val :=
@@ -294,7 +306,7 @@ end
 /-- number of arguments a function takes (`none` = any number) -/
 def Sem.arity : Sem → Option Nat
   | .abs | .ceil | .floor => some 1
-  | .rem | .pow => some 2
+  | .rem | .pow | .ieeeRem => some 2
   | .max | .min => none
   | .opaque _ => some 1
 
